@@ -93,6 +93,7 @@ pub struct Outcome {
     pub wait_graph: Vec<String>,
     pub order_edges: Vec<(String, String)>,
     pub reacquire: Vec<String>,
+    pub reacquire_sites: Vec<String>,
     pub trace_digest: String,
     pub picks: u64,
     pub nontrivial_picks: u64,
@@ -149,7 +150,10 @@ impl RunDir {
     pub fn acquire(tag: &str, seed: u64) -> RunDir {
         let base = scratch_base();
         let _ = std::fs::create_dir_all(&base);
-        let dir = base.join(format!("{tag}-{seed:016x}"));
+        // two levels: spreads directory-lock contention between worker processes
+        let shard = base.join(format!("{:02x}", seed & 0xff));
+        let _ = std::fs::create_dir_all(&shard);
+        let dir = shard.join(format!("{tag}-{seed:016x}"));
         let mut spins = 0u32;
         loop {
             match std::fs::create_dir(&dir) {
@@ -587,6 +591,10 @@ pub fn prepare_process_env() {
         std::env::set_var("XDG_CONFIG_HOME", home.join(".config"));
         std::env::set_var("XDG_DATA_HOME", home.join(".data"));
         std::env::remove_var("EMMYLUALS_CONFIG");
+        // the server shells out to `luarocks` when it loads a configuration: keep the lookup
+        // short and make sure no real tool is ever found (an external process would be a source
+        // of nondeterminism outside the simulator)
+        std::env::set_var("PATH", "/nonexistent-verif-path");
     }
     null_logger();
     simcore::panics::install_quiet_hook();
@@ -599,6 +607,10 @@ pub fn cleanup_process_env() {
 
 /// Execute one run. Must be called on a fresh thread (see `simcore::on_fresh_thread`).
 pub fn execute(spec: &RunSpec) -> Outcome {
+    execute_opts(spec, false)
+}
+
+pub fn execute_opts(spec: &RunSpec, capture_sites: bool) -> Outcome {
     let _ = simcore::panics::take();
     let dir = RunDir::acquire("ls", spec.seed);
     let root = dir.0.join("ws");
@@ -618,6 +630,7 @@ pub fn execute(spec: &RunSpec) -> Outcome {
     }
 
     let shared: SharedRef = Rc::new(RefCell::new(Shared::new(spec.sched.clone(), spec.seed ^ spec.sched_salt.wrapping_mul(0x9e3779b97f4a7c15), spec.decisions.clone())));
+    shared.borrow_mut().capture_backtraces = capture_sites;
     tokio::verif_seam::install(Box::new(SimController(shared.clone())));
 
     let rt = tokio::runtime::Builder::new_current_thread()
@@ -725,20 +738,32 @@ pub fn execute(spec: &RunSpec) -> Outcome {
             o
         }
     };
+    // snapshot the blocked state before the runtime is dropped (dropping it drops every task and
+    // with them the guards they hold)
+    {
+        let s = shared.borrow();
+        out.stall_class = s.stall_class();
+        out.wait_graph = s.wait_for_graph();
+    }
+    let frozen = shared.borrow().events.len();
+    let frozen_digest = shared.borrow().digest.0;
+    let frozen_lock_events = shared.borrow().stats.lock_events;
     drop(rt);
     let _ = tokio::verif_seam::uninstall();
     out.panics = simcore::panics::take();
 
-    let s = shared.borrow();
+    let mut s = shared.borrow_mut();
+    s.events.truncate(frozen);
+    s.digest.0 = frozen_digest; // teardown events (runtime drop) are not part of the execution
+    s.stats.lock_events = frozen_lock_events;
     out.decisions = s.decisions.clone();
-    out.stall_class = s.stall_class();
-    out.wait_graph = s.wait_for_graph();
     out.order_edges = s
         .order_edges
         .iter()
         .map(|(a, am, b, bm)| (format!("{a}.{am:?}"), format!("{b}.{bm:?}")))
         .collect();
     out.reacquire = s.reacquire.iter().cloned().collect();
+    out.reacquire_sites = s.reacquire_sites.iter().cloned().collect();
     out.picks = s.stats.picks;
     out.nontrivial_picks = s.stats.nontrivial_picks;
     out.non_fifo_picks = s.stats.non_fifo_picks;
